@@ -95,6 +95,8 @@ def run(ctx):
                     for ev in evs:
                         if ev.get("e") == "Key" and ev.get("cn") == c["name"]:
                             ex.append({k: v for k, v in ev.items() if k not in ("s", "tp")})
+                        elif ev.get("e") == "ToolError" and "Final event" in str(ev.get("what", "")):
+                            continue      # the recorder could not log the final collection: C23 does not use it
                         elif ev.get("e") in ("ToolError", "Crash", "BadIndex"):
                             ex.append({k: v for k, v in ev.items() if k not in ("s", "tp")})
                     ex.append({"e": "KeysDone", "cn": c["name"]} if have_done else
